@@ -19,6 +19,12 @@ pub mod rng {
     pub uninterp spec fn state(r: SmallRng) -> RngState;
     pub uninterp spec fn seeded(seed: u64) -> RngState;
 
+    /// the state came from operating-system entropy
+    pub uninterp spec fn os_seeded(s: RngState) -> bool;
+    /// ASSUMPTION `os_fresh` (probabilistic, used by C08 only): a generator seeded from OS entropy does not coincide with
+    /// one seeded from a 64-bit integer (256-bit state vs. a 64-bit seed expansion)
+    pub axiom fn ax_os_fresh(s: RngState, x: u64) requires os_seeded(s) ensures s != seeded(x);
+
     // draw kinds
     pub uninterp spec fn unif_out(s: RngState) -> Fl;
     pub uninterp spec fn unif_next(s: RngState) -> RngState;
@@ -83,9 +89,9 @@ pub mod rng {
         /// rand::SeedableRng::seed_from_u64
         #[verifier::external_body]
         pub fn seed_from_u64(seed: u64) -> (r: SmallRng) ensures state(r) == seeded(seed) { unimplemented!() }
-        /// AMBIENT: operating-system entropy; nothing is known about the state
+        /// AMBIENT: operating-system entropy; nothing is known about the state except `os_seeded`
         #[verifier::external_body]
-        pub fn from_os_rng() -> (r: SmallRng) { unimplemented!() }
+        pub fn from_os_rng() -> (r: SmallRng) ensures os_seeded(state(r)) { unimplemented!() }
         /// rand::Rng::random::<T>()
         #[verifier::external_body]
         pub fn random<T: RandomValue>(&mut self) -> (r: T)
